@@ -260,7 +260,7 @@ func init() {
 		Budget:      budget(170*time.Second, 28*time.Minute),
 		Units: func(tier string) []*Unit {
 			var us []*Unit
-			alts := append(append([]stepAlt{}, altsBasic[:4]...), stepAlt{"hang", env.StepScript{Run: env.RunHangCancel}}, stepAlt{"slow", env.StepScript{RunMS: 25}})
+			alts := append(append([]stepAlt{}, altsBasic[:4]...), stepAlt{"hang", env.StepScript{Run: env.RunHangCancel}}, stepAlt{"slow", env.StepScript{RunMS: 25}}, stepAlt{"hangx", env.StepScript{Run: env.RunHangIgnore}})
 			for _, p := range tagPrograms() {
 				for _, in := range tagInputs(p) {
 					for _, sc := range vectors(p, alts, tierBound(tier, 40, 220)) {
